@@ -261,6 +261,12 @@ func (e *Effects) ModsAt(callee *ssa.Function, argTypes []types.Type) map[types.
 		if t == nil || types.IsInterface(t) {
 			return e.mods[callee]
 		}
+		if _, isBasic := t.(*types.Basic); isBasic {
+			return e.mods[callee] // e.g. an untyped nil argument
+		}
+		if types.NewMethodSet(t).Lookup(pi.method.Pkg(), pi.method.Name()) == nil {
+			return e.mods[callee]
+		}
 		m := e.p.ssaProg.LookupMethod(t, pi.method.Pkg(), pi.method.Name())
 		if m == nil {
 			return e.mods[callee]
